@@ -108,6 +108,7 @@ func H_C10_manyblocked() {
 
 // C10: after an Unbind nothing is served.
 func H_C10_unbind() {
+	vSchedFork(1) // handlers may start late (after the read loop went on / reached the Unbind)
 	L := 1 + vLen("extraFrames", 3) // 1..4 frames
 	pos := vLen("unbindPos", L-1)
 	m := vMux()
@@ -247,6 +248,9 @@ func H_C13_starttls() {
 		mu.Lock()
 		defer mu.Unlock()
 		got = append(got, rec{r.ID, vConnLayer(r.conn.reader), vConnLayer(r.conn.writer), vConnLayer(w.writer)})
+		// numbering and connection identity carry on across the upgrade
+		vAssertE(int64(r.ID) == r.message.GetID(), "requests are numbered in arrival order, before and after the upgrade")
+		vAssertE(r.ConnectionID() == 7 && w.connID == 7, "the connection keeps its ID across the upgrade")
 		werr := w.Write(r.NewResponse(WithResponseCode(ResultSuccess)))
 		// whatever time has passed since the upgrade (no write timeout is configured)
 		vAssertE(werr == nil, "requests before and after the upgrade are answered as on a plain connection")
@@ -257,11 +261,28 @@ func H_C13_starttls() {
 	// a client that pipelines plaintext requests behind its StartTLS request in the same segment
 	vConnSet(nc, "pipelined", vBool("clientPipelinesPlaintext"))
 	var startErr error
+	// handler timing: prompt, or held up (for as long as it takes until nothing else in
+	// the program can make progress) before / after its reply
+	slow := vLen("startTLSHandlerDelay", 2)
+	slowGate := vGate("slow StartTLS handler")
+	if slow != 0 {
+		go func() {
+			vQuiesce()
+			vGateOpen(slowGate)
+		}()
+	}
 	framesAtStart, framesAtEnd := -1, -1
 	vAssume(m.ExtendedOperation(func(w *ResponseWriter, r *Request) {
 		inHandler = true
+		vAssertE(int64(r.ID) == r.message.GetID() && r.ConnectionID() == 7, "the StartTLS request has its arrival number and the connection's ID")
 		framesAtStart = vConnFramesRead(nc)
+		if slow == 1 {
+			vGateWait(slowGate) // a handler that is slow before it replies
+		}
 		_ = w.Write(r.NewExtendedResponse(WithResponseCode(ResultSuccess)))
+		if slow == 2 {
+			vGateWait(slowGate) // ... or between the reply and the handshake
+		}
 		startErr = r.StartTLS(cfg)
 		framesAtEnd = vConnFramesRead(nc)
 		inHandler = false
@@ -273,11 +294,12 @@ func H_C13_starttls() {
 			vConnFeed(nc, vFrame(fmt.Sprintf("f%d", i), int64(i+1)))
 		}
 	}
-	c, err := newConn(context.Background(), 1, nc, vLogger(), m)
+	c, err := newConn(context.Background(), 7, nc, vLogger(), m)
 	vAssume(err == nil)
 	_ = c.serveRequests()
 	c.requestsWg.Wait()
 	vAssertE(!inHandler, "handler finished")
+	vAssertE(c.connID == 7, "the connection's ID is unchanged at the end")
 	vAssertE(framesAtStart == pos+1 && framesAtEnd == pos+1, "no frame is read while the StartTLS handler runs")
 	vAssertE((startErr == nil) == tlsOK, "StartTLS succeeds iff the handshake does")
 	if tlsOK {
